@@ -131,34 +131,81 @@ def check_suite_ids(rep, facts, rule='R02.2'):
         fn = key
         rt = a.ret_val()
         total = len(prefix) + 2 * len(slots)
-        if rt[0] != 'mem':
-            rep.undecided(rule, fn, 'shape', pp(rt)[:200], 'a template array with identifiers written into it', where(a))
-            continue
-        tmpl = bytes_of(rt[2])
-        rep.check(tmpl is not None and len(tmpl) == total and tmpl[:len(prefix)] == prefix, rule, fn, 'prefix',
-                  repr(tmpl), '%d bytes starting with %r' % (total, prefix), where(a))
-        ws = rt[3]
-        rep.check(len(ws) == len(slots) and all(w[3] for w in ws), rule, fn, 'writers', '%d writer(s)' % len(ws),
-                  '%d identifier writes, each on every path' % len(slots), where(a))
         enc_keys = set()
-        for w in ws:
-            site, wpath, desc, dom = w
-            if desc[0] != 'call' or len(wpath) != 1 or wpath[0][0] != 'slice':
-                rep.undecided(rule, fn, 'writer-shape', pp(('mem', 0, ('x',), (w,), ()))[:160], 'write_u16_be(&mut id[a..b], ID)', where(a, site))
-                continue
-            lo, hi = wpath[0][1], wpath[0][2]
-            lo_v = lo[2] if lo and lo[0] == 'const' else None
-            hi_v = hi[2] if hi and hi[0] == 'const' else None
-            val = desc[2][1]
-            slot = [s for s in slots if s[0] == lo_v]
-            ok = bool(slot) and hi_v == lo_v + 2 and val[0] == 'aconst' and val[1] == slot[0][1][0] and val[2] == slot[0][1][1] and val[3] == slot[0][1][2]
-            rep.check(ok, rule, fn, 'id@%s' % lo_v, '[%s..%s] <- %s' % (lo_v, hi_v, pp(val)),
-                      'bytes [%s..%s) = I2OSP(%s, 2)' % (lo_v, (lo_v or 0) + 2, slot[0][1][1] if slot else '?'), where(a, site))
-            if desc[4] and desc[4][3]:
-                enc_keys.add(desc[4][3])
-        for k in enc_keys:
+        sym = symbolic_bytes(rt, enc_keys)
+        if sym is None:
+            rep.undecided(rule, fn, 'shape', pp(rt)[:200], 'a byte array built from constants and big-endian encodings of the identifiers '
+                          '(template + write_u16_be, or an array literal over to_be_bytes)', where(a))
+            continue
+        rep.check(len(sym) == total and all(x == ('c', p) for x, p in zip(sym, prefix)), rule, fn, 'prefix',
+                  [x[1] if x[0] == 'c' else '?' for x in sym[:len(prefix)]], '%d bytes starting with %r' % (total, prefix), where(a))
+        for lo_v, (tr, cname, gparam) in slots:
+            got = sym[lo_v:lo_v + 2] if len(sym) >= lo_v + 2 else []
+            ok = len(got) == 2 and all(g[0] == 'be' and g[2] == k and g[3] == 2 and g[1][0] == 'aconst' and g[1][1] == tr and g[1][2] == cname and g[1][3] == gparam
+                                       for k, g in enumerate(got))
+            rep.check(ok, rule, fn, 'id@%s' % lo_v, [pp(g[1]) + '.be[%d/%d]' % (g[2], g[3]) if g[0] == 'be' else str(g) for g in got],
+                      'bytes [%s..%s) = I2OSP(%s, 2)' % (lo_v, lo_v + 2, cname), where(a))
+        rep.check(len([x for x in sym if x[0] == 'be']) == 2 * len(slots), rule, fn, 'writers', '%d identifier byte(s)' % len([x for x in sym if x[0] == 'be']),
+                  '%d identifiers, two bytes each, every other byte constant' % len(slots), where(a))
+        for k in sorted(enc_keys):
             check_be_encoder(rep, facts, k, 2, 'R02.3')
-        rep.check(len(enc_keys) == 1, rule, fn, 'encoder', sorted(enc_keys), 'all identifiers written by the verified big-endian u16 encoder', where(a))
+        rep.check(len(enc_keys) <= 1, rule, fn, 'encoder', sorted(enc_keys), 'identifiers written by the verified big-endian u16 encoder (or u16::to_be_bytes)', where(a))
+
+
+def symbolic_bytes(t, enc_keys=None):
+    """per-byte symbolic value of a byte-array term: ('c', byte) | ('be', value term, k, n) = byte k of the n-byte big-endian
+    encoding of value | None if the term is not understood.  Understands constants, array literals over constants and
+    `to_be_bytes(v)[k]`, and a template overwritten (on every path) by local big-endian encoder calls on constant ranges."""
+    b = bytes_of(t)
+    if b is not None:
+        return [('c', x) for x in b]
+    if t[0] == 'agg' and t[1] == 'array':
+        out = []
+        for f in t[3]:
+            if f[0] == 'const' and isinstance(f[2], int) and not isinstance(f[2], bool):
+                out.append(('c', f[2] & 0xFF))
+            elif f[0] == 'elem' and f[1][0] == 'const' and isinstance(f[1][2], int) and f[2][0] == 'call' and \
+                    f[2][1].startswith('core::num::<impl u') and f[2][1].endswith('>::to_be_bytes') and len(f[2][2]) == 1:
+                width = {'u16': 2, 'u32': 4, 'u64': 8, 'u8': 1}.get(f[2][1][len('core::num::<impl '):].split('>')[0])
+                if width is None or f[1][2] >= width:
+                    return None
+                out.append(('be', strip_sites(f[2][2][0]), f[1][2], width))
+            else:
+                return None
+        return out
+    if t[0] == 'call' and t[1].startswith('core::num::<impl u') and t[1].endswith('>::to_be_bytes') and len(t[2]) == 1:
+        width = {'u16': 2, 'u32': 4, 'u64': 8, 'u8': 1}.get(t[1][len('core::num::<impl '):].split('>')[0])
+        return [('be', strip_sites(t[2][0]), k, width) for k in range(width)] if width else None
+    if t[0] == 'mem' and not t[4]:
+        cur = symbolic_bytes(t[2], enc_keys)
+        if cur is None:
+            return None
+        for site, wpath, desc, dom in t[3]:
+            if not dom or desc[0] != 'call' or len(wpath) != 1 or wpath[0][0] != 'slice':
+                return None
+            lo, hi = wpath[0][1], wpath[0][2]
+            lo_v = lo[2] if lo and lo[0] == 'const' else (0 if lo is None else None)
+            hi_v = hi[2] if hi and hi[0] == 'const' else (len(cur) if hi is None else None)
+            if lo_v is None or hi_v is None or not (0 <= lo_v < hi_v <= len(cur)):
+                return None
+            n = hi_v - lo_v
+            info = desc[4]
+            if info and info[3] and len(desc[2]) == 2:
+                # a local encoder (verified separately by check_be_encoder for this width)
+                if enc_keys is not None:
+                    enc_keys.add(info[3])
+                val = strip_sites(desc[2][1])
+                for k in range(n):
+                    cur[lo_v + k] = ('be', val, k, n)
+            elif desc[1].endswith('copy_from_slice') and len(desc[2]) == 2:
+                src = symbolic_bytes(unref(desc[2][1]), enc_keys)
+                if src is None or len(src) != n:
+                    return None
+                cur[lo_v:hi_v] = src
+            else:
+                return None
+        return cur
+    return None
 
 
 # ---------------------------------------------------------------------- R02.4
@@ -239,7 +286,10 @@ def check_labeled_expand(rep, facts, rule='R02.4'):
                     len_ok = v == ('cast', 'IntToInt', 'u16', ('len', ('param', 5))) and w[4] and w[4][3] is not None
                     if len_ok:
                         len_ok = check_be_encoder(rep, facts, w[4][3], 2, 'R02.3')
-            rep.check(len_ok, rule, fn, 'length-prefix', pp(lenbuf)[:200], 'I2OSP(L, 2): out.len() as u16 through the verified big-endian encoder', where(a, p))
+            if not len_ok and lenbuf[0] == 'call' and lenbuf[1] == 'core::num::<impl u16>::to_be_bytes' and \
+                    lenbuf[2] == (('cast', 'IntToInt', 'u16', ('len', ('param', 5))),):
+                len_ok = True          # the core library's big-endian encoding of the same value
+            rep.check(len_ok, rule, fn, 'length-prefix', pp(lenbuf)[:200], 'I2OSP(L, 2): out.len() as u16 through the verified big-endian encoder (or u16::to_be_bytes)', where(a, p))
             okc = bytes_of(c1) == rfc.VERSION_LABEL and (c2, c3, c4) == (('param', 2), ('param', 3), ('param', 4))
         rep.check(okc, rule, fn, 'labeled-info-order', pp(comp)[:300],
                   '[I2OSP(L,2), "HPKE-v1", suite_id, label, info] — five components in this order', where(a, p))
